@@ -48,3 +48,10 @@ Definition in_scope (cfg : config) (q : request) : bool :=
   | [_] => true
   | _ => match q_body q with None => true | Some _ => has_unsafe cfg end
   end.
+
+(* what the model itself "observes": per backend the requests handed to the http proxy in the
+   fan-out and alone, in the schedule-free semantics *)
+Definition present {A} (l : list (option A)) : list A :=
+  flat_map (fun o => match o with Some x => [x] | None => [] end) l.
+Definition model_obs (cfg : config) (q : request) : list bobs :=
+  map (fun k => (present (sent_seq cfg q k), present (sent_seq (solo cfg k) q 0))) (seq 0 (List.length cfg)).
